@@ -151,3 +151,19 @@ func runShared(t *testing.T, sc *SScenario, path string) {
 	}()
 	RunShared(t, sc, f)
 }
+
+// TestLease: the Azure Blob lease managers (C18); one history with all cases.
+func TestLease(t *testing.T) {
+	out := os.Getenv("VERIF_OUT")
+	if out == "" {
+		t.Skip("VERIF_OUT not set")
+	}
+	os.MkdirAll(out, 0o755)
+	seed := envInt("VERIF_SEED", 1)
+	f, err := os.Create(filepath.Join(out, fmt.Sprintf("lease-%d-00000.hist", seed)))
+	if err != nil {
+		t.Fatal(err)
+	}
+	defer f.Close()
+	RunLease(t, seed, os.Getenv("VERIF_THOROUGH") == "1", f)
+}
